@@ -25,6 +25,10 @@ CONSTANTS MAX,        \* frame payload limit (model scale, >= 3)
           MaxInj,     \* bound on injected foreign / unknown frames
           InjKinds,   \* injected frame kinds explored: subset of AllInjKinds
           RSizes,     \* caller read-buffer size classes explored: subset of {"one","small","big"}
+          Concurrent, \* TRUE: other tunnels' writers run in parallel with ours on the connection, so their
+                      \*       frames may land between the frames of one Write (not only between Write calls)
+          AtomicFrames, \* TRUE (the code as it is): WriteFrame puts header+payload on the connection in one
+                      \*       step (single writev under the fd write lock); FALSE enables DevTornWriteFrame
           Gen,        \* TRUE: generation mode (scripts only, history kept); FALSE: exhaustive check
           Emit        \* TRUE: print behaviours
 
@@ -123,12 +127,24 @@ EndCall(kind) ==
 
 \* another user of the same connection writes a frame (real WriteFrame on the same TCP conn)
 Inject(k) ==
-  /\ WriterIdle /\ ni < MaxInj
+  /\ ~fin /\ (wpend = 0 \/ Concurrent) /\ ni < MaxInj
   /\ wst = "open"                          \* after our end-of-stream the reader has stopped reading
   /\ ni' = ni + 1
   /\ wire' = Append(wire, InjFrame(k))
   /\ H([op |-> "inj", k |-> k])
   /\ UNCHANGED <<wn, wOff, wpend, wst, fin, wReq>> /\ RUnch
+
+\* DEVIATION (not in the code as it is): WriteFrame issues header and payload as two writes and a
+\* concurrent writer of another tunnel gets in between.  On the wire our header is followed by
+\* the other frame's bytes: the peer's decoder takes them for our payload and loses frame sync.
+DevTornWriteFrame(k) ==
+  /\ ~AtomicFrames /\ Concurrent /\ ~fin /\ wpend > 0 /\ ni < MaxInj /\ k \in {"fd", "fdn", "fds"}
+  /\ LET n == Min(MAX, wpend)
+     IN /\ wire' = Append(wire, Frame(Own, "torn", wOff, n))
+        /\ wOff' = wOff + n
+        /\ wpend' = wpend - n
+  /\ ni' = ni + 1
+  /\ UNCHANGED <<wn, wst, fin, wReq, hist>> /\ RUnch
 
 Out(b) == IF Emit THEN PrintT("BEH " \o ToJson(b)) ELSE TRUE
 
@@ -206,12 +222,21 @@ DevReadCollidingEnd ==
   /\ wire' = SubSeq(wire, FirstRel + 1, Len(wire))
   /\ UNCHANGED <<rbuf, roff, dOff, devOrder, foreignDelivered, devColData>> /\ WUnch
 
-Read == ReadFromBuf \/ ReadOwnData \/ ReadOwnEnd \/ DevReadCollidingData \/ DevReadCollidingEnd
+\* what the reader makes of a torn frame: bytes of the other tunnel's frame handed to our caller,
+\* frame synchronisation lost
+DevReadTorn ==
+  /\ ~Gen /\ ~rEOF /\ ~BufHasData /\ FirstRel > 0 /\ wire[FirstRel].ty = "torn"
+  /\ foreignDelivered' = TRUE /\ devOrder' = TRUE
+  /\ wire' = SubSeq(wire, FirstRel + 1, Len(wire))
+  /\ UNCHANGED <<rbuf, roff, rEOF, dOff, devColData, devColEnd>> /\ WUnch
+
+Read == DevReadTorn \/ ReadFromBuf \/ ReadOwnData \/ ReadOwnEnd \/ DevReadCollidingData \/ DevReadCollidingEnd
 
 Next == \/ \E c \in SizeClasses : WriteCall(c)
         \/ WriteFrameStep
         \/ EndCall("eof") \/ EndCall("close")
         \/ \E k \in InjKinds : Inject(k)
+        \/ \E k \in InjKinds : DevTornWriteFrame(k)
         \/ Finish
         \/ Read
 Spec == Init /\ [][Next]_vars
@@ -263,14 +288,37 @@ EofCompleteStrict == rEOF => (wst # "open" /\ wpend = 0 /\ dOff = wOff)
 \* nothing is stuck in a buffer or behind a skipped frame (completeness, stated without temporal logic)
 Quiescent == fin /\ ~ENABLED Read
 DoneComplete == Quiescent => rEOF
+\* frames of different writers never mix below frame granularity
+FramesAtomic == \A i \in 1..Len(wire) : wire[i].ty # "torn"
 \* the reader never holds more than one frame payload
 ReaderAllocBound == rbuf.len <= MAX
 
 \* ---- generation of the non-stream behaviour classes (printed once from the initial state) --
 FwdPatterns == {"half", "full"}
+\* concurrent-writer classes: our Write size class, number of other tunnels writing in parallel
+\* through their own FrameStream on the same connection, their payload class
+ParSizes == {"one", "Mm1", "Mp1"}
+ParWriters == {1, 3}
+ParPayloads == {"small", "M"}
+\* forwarding: traffic counters configured or not (LocalConn wrapped in CountingReadWriter), and the
+\* local reader's end-of-stream style: "sep" = (0, EOF) in a call of its own (net.Conn),
+\* "with" = the last chunk comes together with EOF (n > 0, EOF), which io.Reader permits
+FwdCounters == {"off", "on"}
+FwdEofStyles == {"sep", "with"}
+\* io.Copy contract the forwarder relies on: every (n, err) read result forwards its n bytes
+ReadResults == [n : 0..2, eof : BOOLEAN]
+Forwarded(rs) == LET RECURSIVE f(_, _)
+                     f(i, acc) == IF i > Len(rs) THEN acc
+                                  ELSE IF rs[i].eof THEN acc + rs[i].n ELSE f(i + 1, acc + rs[i].n)
+                 IN f(1, 0)
+ASSUME CopyForwardsAll == \A a \in ReadResults, b \in ReadResults :
+          Forwarded(<<a, b>>) = a.n + (IF a.eof THEN 0 ELSE b.n)
 AuxBehaviours ==
   /\ \A c \in DecClasses : Out([kind |-> "dec", c |-> c, exp |-> DecodeOutcome(c).res])
   /\ \A c \in RtLens : \A t \in DecTypes : Out([kind |-> "rt", len |-> c, ty |-> t])
-  /\ \A p \in FwdPatterns : \A a \in SizeClasses : \A b \in SizeClasses : Out([kind |-> "fwd", pat |-> p, req |-> a, resp |-> b])
+  /\ \A p \in FwdPatterns : \A a \in SizeClasses : \A b \in SizeClasses : \A cn \in FwdCounters : \A es \in FwdEofStyles :
+        (es = "with" => p = "half") =>     \* end-of-stream from the local reader is the half-close
+        Out([kind |-> "fwd", pat |-> p, req |-> a, resp |-> b, cnt |-> cn, eofs |-> es])
+  /\ \A c \in ParSizes : \A n \in ParWriters : \A pl \in ParPayloads : Out([kind |-> "par", c |-> c, nw |-> n, pl |-> pl])
 AuxEmitted == (Gen /\ wn = 0 /\ ni = 0 /\ hist = <<>> /\ ~fin) => AuxBehaviours
 =============================================================================
